@@ -6,7 +6,7 @@ import vf, gen
 ID = 'C07'
 FLAVORS = ['default']
 RULE = ('two-phase round trip on the implementation (and on the model for the types it covers): phase 1 runs a query whose handler emits one result; phase 2 sends the emitted bytes back as the parameter of a command '
-        'whose handler reads it with the matching reader. Values: all 2^8 and (thorough) all 2^16 integers, boundary and random 32/64-bit integers, in bases 2, 8, 10, 16 and signed; booleans; all strings up to length 3 (quick) / 4 (thorough) '
+        'whose handler reads it with the matching reader. Values: all 2^8 and (thorough) all 2^16 integers, boundary and random 32/64-bit integers, in bases 2, 8, 10, 16 and signed (bit patterns emitted in bases 2, 8, 16 also read back through the signed readers); booleans; all strings up to length 3 (quick) / 4 (thorough) '
         'over {a, ", \', blank, ;, LF} and random longer 7-bit strings; blocks of lengths 0..1100 (quick: sampled) with random bytes; boundary and random floats/doubles; ASCII arrays of integers and doubles. '
         'Non-trivial: the emitted text has at least 3 bytes; distinct = distinct value/type pairs.')
 MODELLED = 'result writers and parameter readers of ParserModel/FmtModel/LexModel; 8/16-bit results, float results and ASCII arrays run on the implementation only'
